@@ -155,9 +155,23 @@ pub fn read_probe(src: &[u8], as_str: bool, offset: usize, n: usize) -> Option<V
     }
     if as_str {
         let s = std::str::from_utf8(src).expect("valid UTF-8");
-        probe!(s)
+        let direct = probe!(s);
+        // the same read through the wrapper impls (`impl<T: Deref> Source for T`) must agree
+        let owned: String = s.to_string();
+        let boxed: Box<str> = s.into();
+        let (a, b, c) = (probe!(owned), probe!(boxed), probe!(&s));
+        if a != direct || b != direct || c != direct {
+            return Some(vec![0xde, 0xad]);
+        }
+        direct
     } else {
-        probe!(src)
+        let direct = probe!(src);
+        let owned: Vec<u8> = src.to_vec();
+        let (a, b) = (probe!(owned), probe!(&src));
+        if a != direct || b != direct {
+            return Some(vec![0xde, 0xad]);
+        }
+        direct
     }
 }
 
